@@ -56,6 +56,44 @@ DOC = {
 }
 
 
+_BOUNDARY_VECTORS = [(1.0, 1.0, 1.0), (0.1, 0.2, 0.3), (3.0, 4.0, 5.0), (1.0, 2.0, 3.0), (-1.0, 0.5, 2.0), (0.3, -0.7, 0.2), (2.5, 0.1, -1.5), (1e-3, 2e-3, 5e-3),
+                     (7.0, -3.0, 0.5), (0.6, 0.8, 0.0), (1.1, 2.2, 3.3), (0.9, -0.1, 0.4)]
+
+
+def _stored_coordinate(kind, x, y, z):
+    """the stored coordinates of the Cartesian point in one coordinate class, computed the way the library's own conversions compute them"""
+    import math
+    rho = math.sqrt(x * x + y * y)
+    return {"x": x, "y": y, "rho": rho, "phi": math.atan2(y, x), "z": z, "theta": math.atan2(rho, z), "eta": math.asinh(z / rho) if rho else math.copysign(math.inf, z)}[kind]
+
+
+def _boundary_witness(node):
+    """a pair of parallel or antiparallel operands (the same Cartesian vector, a positive or negative multiple) at which the expression, evaluated with IEEE double
+    semantics, is NaN although every operand is finite and off the z axis"""
+    import re
+    from ..singular import ieee
+    params = sorted({x.a[0] for x in ir.walk(node) if x.kind == "param"})
+    parts = {}
+    for p_ in params:
+        m = re.fullmatch(r"([a-z]+)([12]?)", str(p_))
+        if m is None or m.group(1) not in ("x", "y", "rho", "phi", "z", "theta", "eta"):
+            return None
+        parts[p_] = (m.group(1), m.group(2))
+    for v in _BOUNDARY_VECTORS:
+        for scale in (1.0, 2.0, -1.0, -0.5):
+            env = {}
+            for p_, (kind, which) in parts.items():
+                k = scale if which == "2" else 1.0
+                env[p_] = _stored_coordinate(kind, k * v[0], k * v[1], k * v[2])
+            try:
+                val = ieee(node, env)
+            except (ArithmeticError, ValueError, KeyError):
+                continue
+            if val != val:
+                return {"point": env, "problem": f"NaN for the {'parallel' if scale > 0 else 'antiparallel'} operands {v} and {scale} * {v} (IEEE double evaluation of the inlined entry)"}
+    return None
+
+
 def run(ctx):
     L = link(ctx.repo)
     ctx.trusted_base = [
@@ -104,6 +142,10 @@ def run(ctx):
                     cex = None
                     if not ok:
                         cex = interval.find_counterexample(top, -INF, INF)
+                        if cex is None or "problem" not in cex:
+                            # over the reals the argument may stay inside the domain (Cauchy-Schwarz) while rounding pushes it out: IEEE point semantics on
+                            # (anti)parallel operand pairs written in each operand's own coordinates
+                            cex = _boundary_witness(top)
                         if cex is None or "problem" not in cex:
                             raise AnalysisError(f"UNDECIDED C13.defined {e.name}: {fn} argument ranges over {arg}; not provable and no counterexample found")
                     ctx.ob("C13.defined", f"{e.name}:{fn}({txt[:60]})", ok,
